@@ -3,10 +3,12 @@ from common import T_COMMON
 CFG = dict(
     gen=[dict(spec="transform.json", out="Transform.lean"), dict(spec="trees.json", out="Trees.lean"),
          dict(spec="render.json", out="Render.lean")],
-    modules=["PolyVerif.Props.C16", "PolyVerif.Props.C16Prims", "PolyVerif.Props.C16Mesh", "PolyVerif.Props.C16TreeHit"],
+    modules=["PolyVerif.Props.C16", "PolyVerif.Props.C16Prims", "PolyVerif.Props.C16Mesh", "PolyVerif.Props.C16TreeHit", "PolyVerif.Props.C16Slab"],
     theorems=[
         # geometry facts about the regenerated AABB code / the hand-modelled slab test (over ℝ)
         "aabb_lower_bound", "aabb_contains_mono", "aabb_distance_mono", "slab_mono", "slab_sound", "aabb_encapsulate_contains",
+        # Props/C16Slab.lean: hand slab model vs the regenerated slab test
+        "PolyVerif.Tree.slabArith_eq_gen", "PolyVerif.Tree.slabFold_eq_gen", "PolyVerif.Tree.intersectsRayInRange_eq_slabFold", "PolyVerif.Tree.intersectsRayInRange_eq_gen",
         "seg_cp_cases", "tri_closest_in_box", "prim_closest_in_box", "prim_box_wf",
         # pruned queries = exhaustive scan for EVERY tree with the invariant
         "pruned_eq_scan", "containing_eq_scan_generic",
@@ -67,8 +69,14 @@ CFG = dict(
         "reported as a hit); (d) a multi-object NewBVHTree still has no model-vs-impl line (random axis), one-object nodes do (c16.prim.*), and so does "
         "rendering.Tree (NewBVH, deterministic: c16.tree.hit; theorem tree_built_hit_eq_hitlist); "
         "(e) the Normal / UV / Material / FrontFace fields of the HitRecord are not modelled (Distance and Point are)",
-        "the slab test stays hand-modelled: go/xlate rejects AABB.intersectsRayInRangeComponent with 'store through pointer' (aabb.go:220); "
-        "no spec-level workaround exists (needs a translator feature: pointer out-parameters threaded as a result tuple)",
+        "the slab test is now REGENERATED (Gen/Render.lean: AABB.intersectsRayInRangeComponent, AABB.IntersectsRayInRange; translator feature: "
+        "*float64 out-parameters threaded as a result tuple). Props/C16Slab.lean: the hand arithmetic of one slab IS the regenerated component "
+        "function at every scalar (slabArith_eq_gen); the regenerated three-axis test is the composition of slabArith with the source's float64 "
+        "kEpsilon (slabFold_eq_gen); the hand model of the whole test is the same composition with kEps = 1e-10 when no direction component is "
+        "zero (intersectsRayInRange_eq_slabFold). REMAINS: the ray theorems (slab_mono, slab_sound, …) are still stated about the hand model: "
+        "over R the decimal kEps and the float64 constant differ (< 1e-26), and for zero direction components the hand model spells out the "
+        "IEEE outcome of 1/±0 which the real reading of the source cannot express; at Float hand model = regenerated function = Go is checked "
+        "on every c16.aabb.ray line (the driver evaluates both and prints a mismatch marker if they differ)",
         "zero direction components: the slab model makes the IEEE outcome of 1/±0 explicit (origin strictly inside the widened slab: range "
         "unchanged; strictly outside: reject), so slab_mono / slab_sound and every ray theorem cover axis-parallel rays. The corner 'origin "
         "EXACTLY on a widened face with a zero component' (Go: 0*Inf = NaN; accepted for +0, rejected for -0) is covered under BOTH outcomes: "
